@@ -33,7 +33,7 @@ import (
 var fanPresetNames = []string{"off", "eco", "low", "med", "high", "turbo", "full", "night"}
 
 func runFanSpeed(r *vk.Run) {
-	n := r.Pick(1200, 40000)
+	n := r.Pick(4000, 150000)
 	for i := 0; i < n; i++ {
 		if !r.Mine(i) {
 			continue
@@ -323,6 +323,23 @@ func fanCase(r *vk.Run, idx int) {
 		}
 		if rule, detail := fanInvariant(stored, presets); rule != "" {
 			t.viol(rule, op, "%s; before %s, request %s paths %v, presets %v", detail, fanTriple(cur), fanTriple(req), paths, presets)
+			// Later operations must start from a consistent triple, otherwise one defect is reported again under the
+			// keys of whatever follows. Select a preset by name through the model (masked, the unambiguous form).
+			back := presets[rng.Intn(len(presets))].Name
+			if back == stored.Preset {
+				back = presets[(presetIdx(back)+1)%len(presets)].Name
+			}
+			t.log("(restore) Model.UpdateFanSpeed preset=%q paths=[preset]", back)
+			if !t.try("Model.UpdateFanSpeed:mask", func() { _, err = m.UpdateFanSpeed(&traits.FanSpeed{Preset: back}, resource.WithUpdatePaths("preset")) }) {
+				return
+			}
+			if !t.try("FanSpeed", func() { stored = m.FanSpeed() }) {
+				return
+			}
+			if rule, _ := fanInvariant(stored, presets); rule != "" || err != nil {
+				r.Count("fanspeed/case-abandoned-after-violation", 1)
+				return
+			}
 		} else if expect != nil {
 			if rule, detail := expect(stored); rule != "" {
 				t.viol(rule, op, "%s; before %s, request %s paths %v, after %s, presets %v", detail, fanTriple(cur), fanTriple(req), paths, fanTriple(stored), presets)
@@ -330,6 +347,10 @@ func fanCase(r *vk.Run, idx int) {
 		}
 		if openDomain != "" {
 			r.Count("fanspeed/open-domain:"+openDomain, 1)
+		}
+		if masked && stored.Direction != cur.Direction {
+			// mask semantics belong to C05/C14; observed here because it is how an ignored update_mask shows
+			r.Count("fanspeed/open-domain:direction-changed-by-update-with-mask-"+paths[0], 1)
 		}
 		cur = stored
 	}
